@@ -226,7 +226,9 @@ def run(ctx):
     c09.rule_r6(facts, ctx, rule_id="C05.R4")   # no retirement with consumed-but-uncommitted input
     # a misdirected wait is what hangs THIS runner: the thread waits on a stream that already holds the amount, the wait
     # returns at once, eof() (all inputs ended and drained) is false, and the loop never ends (seed s8-c05)
-    from . import c19
+    from . import c19, c08
+    c08.rule_r5(facts, c19._Retag(ctx, "C08.R5", "C05.R9"))      # a sample that moved the block's phase is counted as consumed (seed s10-c05)
+    ctx.floor("C05.R9", 1, "counted consumes (same rule as C08.R5)")
     c09.rule_r3(facts, c19._Retag(ctx, "C09.R3", "C05.R8"))
     ctx.floor("C05.R8", 40, "WaitForStream return sites with a plain short-window controlling test (same rule as C09.R3)")
     from . import c03
